@@ -238,9 +238,14 @@ fn check_detect_one(rep: &mut Report, line: &str) {
     }
 }
 
+pub(crate) fn deep() -> bool {
+    std::env::var("VERIF_DEEP").map(|v| v == "1").unwrap_or(false)
+}
+
 fn mode_detect(rep: &mut Report) {
-    rep.bound = "all concatenations of <= 4 tokens over {space, tab, -, //, TXTPP#, TXTPP, #, run, include, tag, temp, write, after, runx, x, U+3000, e-acute}".into();
-    for s in strings_up_to(&tokens_directive(), 4) {
+    let n = if deep() { 5 } else { 4 };
+    rep.bound = format!("all concatenations of <= {n} tokens over {{space, tab, -, //, TXTPP#, TXTPP, #, run, include, tag, temp, write, after, runx, x, U+3000, e-acute}}");
+    for s in strings_up_to(&tokens_directive(), n) {
         check_detect_one(rep, &s);
     }
 }
@@ -275,13 +280,14 @@ fn check_add_line_one(rep: &mut Report, first: &str, cont: &str) {
 }
 
 fn mode_add_line(rep: &mut Report) {
-    rep.bound = "first lines from a fixed list of 14 directive lines x continuation lines of <= 3 tokens over {space, tab, -, //, //space, #, x, TXTPP#, e-acute, U+3000}".into();
+    let n = if deep() { 5 } else { 3 };
+    rep.bound = format!("first lines from a fixed list of 14 directive lines x continuation lines of <= {n} tokens over {{space, tab, -, //, //space, #, x, TXTPP#, e-acute, U+3000}}");
     let firsts = [
         "-TXTPP#run a", "  // TXTPP#run a", "//  TXTPP#temp f", "\t# TXTPP#write x", "-TXTPP#", "  -TXTPP#", "é TXTPP#run", "\u{3000}-TXTPP#write",
         "-TXTPP#include a", "-TXTPP#tag T", "-TXTPP#after a", "// TXTPP#run", "#   TXTPP#temp t", "--TXTPP#write",
     ];
     let alpha = [" ", "\t", "-", "//", "// ", "#", "x", "TXTPP#", "é", "\u{3000}"];
-    let conts = strings_up_to(&alpha, 3);
+    let conts = strings_up_to(&alpha, n);
     for f in firsts {
         for c in &conts {
             check_add_line_one(rep, f, c);
@@ -346,10 +352,11 @@ fn prefix_related(a: &str, b: &str) -> bool {
 }
 
 fn mode_inject(rep: &mut Report) {
-    rep.bound = "all prefix-free tag-name sets of size <= 3 over {A, AB, BA, B, BC, ABC, CA} x lines of <= 5 tokens over {A, B, C, x} x 3 stored contents x le in {LF, CRLF}; each case repeated 4 times".into();
+    let n = if deep() { 7 } else { 5 };
+    rep.bound = format!("all prefix-free tag-name sets of size <= 3 over {{A, AB, BA, B, BC, ABC, CA}} x lines of <= {n} tokens over {{A, B, C, x}} x 3 stored contents x le in {{LF, CRLF}}; each case repeated 4 times");
     let names = ["A", "AB", "BA", "B", "BC", "ABC", "CA"];
     let contents = ["1", "B\nA", "x\r\ny\n"];
-    let lines = strings_up_to(&["A", "B", "C", "x"], 5);
+    let lines = strings_up_to(&["A", "B", "C", "x"], n);
     let mut sets: Vec<Vec<&str>> = vec![vec![]];
     for i in 0..names.len() {
         sets.push(vec![names[i]]);
@@ -377,8 +384,9 @@ fn mode_inject(rep: &mut Report) {
 }
 
 fn mode_replace_le(rep: &mut Report) {
-    rep.bound = "all texts of <= 6 tokens over {a, LF, CRLF, space} x le in {LF, CRLF} x force in {true,false}".into();
-    for t in strings_up_to(&["a", "\n", "\r\n", " "], 6) {
+    let n = if deep() { 9 } else { 6 };
+    rep.bound = format!("all texts of <= {n} tokens over {{a, LF, CRLF, space}} x le in {{LF, CRLF}} x force in {{true,false}}");
+    for t in strings_up_to(&["a", "\n", "\r\n", " "], n) {
         for le in ["\n", "\r\n"] {
             for force in [false, true] {
                 rep.checked += 1;
@@ -457,7 +465,8 @@ fn run_depmgr_seq(seq: &[Op]) -> Result<(), (String, String)> {
 }
 
 fn mode_depmgr(rep: &mut Report) {
-    rep.bound = "all operation sequences of length <= 4 over 3 keys: add_dependency(a, deps) with deps any list of <= 2 keys, notify_finish(b)".into();
+    let maxlen = 4;
+    rep.bound = format!("all operation sequences of length <= {maxlen} over 3 keys: add_dependency(a, deps) with deps any list of <= 2 keys, notify_finish(b)");
     let mut ops = vec![];
     for a in 0..3 {
         ops.push(Op::Fin(a));
@@ -486,7 +495,7 @@ fn mode_depmgr(rep: &mut Report) {
                 return;
             }
         }
-        if idx.len() < 4 {
+        if idx.len() < maxlen {
             for i in 0..ops.len() {
                 let mut n = idx.clone();
                 n.push(i);
@@ -513,7 +522,7 @@ fn main() {
             let work = std::path::PathBuf::from(args.get(2).cloned().unwrap_or_else(|| "syswork".into()));
             let r = system::run_all(&work);
             let _ = std::fs::remove_dir_all(&work);
-            rep.bound = format!("{} fixed project scenarios x {{trailing newline on/off}} x {{Build, InMemoryBuild}} x 5 pre-states of the generated files x {{1,4}} threads, then Verify (+ tampering of each output), up-to-date rebuilds (inode/mtime), Clean twice; reference = executable transcription of spec/pp.rs; scenarios where the semantics prescribe an error: {:?}", system::scenarios().len(), { let mut e = r.expected_err.clone(); e.sort(); e });
+            rep.bound = format!("{} fixed project scenarios x {{trailing newline on/off}} x {{Build, InMemoryBuild}} x 5 pre-states of the generated files x {} threads, then Verify (+ tampering of each output), up-to-date rebuilds (inode/mtime), Clean twice; reference = executable transcription of spec/pp.rs; scenarios where the semantics prescribe an error: {:?}", system::scenarios().len(), if deep() { "{1,2,4,8,16} (pre-states: {1,4})" } else { "{1,4}" }, { let mut e = r.expected_err.clone(); e.sort(); e });
             rep.checked = r.checked;
             rep.failures = r.failures;
         }
